@@ -1,6 +1,6 @@
 (* C08 -- property theorems only: statement + exact + Print Assumptions. *)
 From Coq Require Import List ZArith Bool.
-From LJT Require Import model.Partial gen.GenScaling proofs.PartialGeomProofs proofs.PartialSchedProofs proofs.PartialCtxExamples
+From LJT Require Import model.Partial gen.GenScaling proofs.PartialGeomProofs proofs.PartialSchedSkip proofs.PartialCtxExamples
   model.PartialSmooth proofs.PartialSmoothProofs proofs.PartialCtxRead proofs.PartialCtxFinal.
 Import ListNotations.
 Local Open Scope Z_scope.
